@@ -226,6 +226,24 @@ func step(s mstate, o op, r result) (string, mstate) {
 type objects struct {
 	files   []*ach.File
 	batches []ach.Batcher
+	// svc, when set, is the server's Service over the same repository: every call but StoreFile goes through it
+	svc server.Service
+	// keptLists: every listing a call returned, with the tokens it had when it returned (sequential runs only)
+	keepLists bool
+	keptB     []keptBatches
+	keptF     []keptFiles
+}
+
+type keptBatches struct {
+	at   int
+	list []ach.Batcher
+	toks []int
+}
+
+type keptFiles struct {
+	at   int
+	list []*ach.File
+	toks []int
 }
 
 func (ob *objects) fileTok(f *ach.File) int {
@@ -261,6 +279,7 @@ func newFileObj(f int) *ach.File {
 func newBatchObj(b int) ach.Batcher {
 	x := ach.NewBatchPPD(ach.NewBatchHeader())
 	x.SetID(batchIDs[b])
+	x.GetHeader().ID = batchIDs[b] // what Service.CreateBatch takes the batch's ID from
 	return x
 }
 
@@ -268,37 +287,99 @@ func newBatchObj(b int) ach.Batcher {
 // looks inside a returned object, so it is safe to call from many goroutines.
 func exec(repo server.Repository, o op, ob *objects) result {
 	r := result{tok: -1}
+	svc := ob.svc
 	switch o.kind {
 	case kStoreFile:
 		r.err = repo.StoreFile(ob.files[o.tok]) != nil
 	case kFindFile:
-		f, err := repo.FindFile(fileIDs[o.f])
+		var f *ach.File
+		var err error
+		if svc != nil {
+			f, err = svc.GetFile(fileIDs[o.f])
+		} else {
+			f, err = repo.FindFile(fileIDs[o.f])
+		}
 		r.err, r.tok = err != nil, ob.fileTok(f)
 	case kFindAllFiles:
-		fs := repo.FindAllFiles()
+		var fs []*ach.File
+		if svc != nil {
+			fs = svc.GetFiles()
+		} else {
+			fs = repo.FindAllFiles()
+		}
 		r.toks = make([]int, 0, len(fs))
 		for _, f := range fs {
 			r.toks = append(r.toks, ob.fileTok(f))
 		}
+		if ob.keepLists {
+			ob.keptF = append(ob.keptF, keptFiles{len(ob.keptF) + len(ob.keptB), fs, append([]int(nil), r.toks...)})
+		}
 		sort.Ints(r.toks)
 	case kDeleteFile:
-		r.err = repo.DeleteFile(fileIDs[o.f]) != nil
+		if svc != nil {
+			r.err = svc.DeleteFile(fileIDs[o.f]) != nil
+		} else {
+			r.err = repo.DeleteFile(fileIDs[o.f]) != nil
+		}
 	case kStoreBatch:
-		r.err = repo.StoreBatch(fileIDs[o.f], ob.batches[o.tok]) != nil
+		if svc != nil {
+			_, err := svc.CreateBatch(fileIDs[o.f], ob.batches[o.tok])
+			r.err = err != nil
+		} else {
+			r.err = repo.StoreBatch(fileIDs[o.f], ob.batches[o.tok]) != nil
+		}
 	case kFindBatch:
-		b, err := repo.FindBatch(fileIDs[o.f], batchIDs[o.b])
+		var b ach.Batcher
+		var err error
+		if svc != nil {
+			b, err = svc.GetBatch(fileIDs[o.f], batchIDs[o.b])
+		} else {
+			b, err = repo.FindBatch(fileIDs[o.f], batchIDs[o.b])
+		}
 		r.err, r.tok = err != nil, ob.batchTok(b)
 	case kFindAllBatches:
-		bs := repo.FindAllBatches(fileIDs[o.f])
+		var bs []ach.Batcher
+		if svc != nil {
+			bs = svc.GetBatches(fileIDs[o.f])
+		} else {
+			bs = repo.FindAllBatches(fileIDs[o.f])
+		}
 		r.toks = make([]int, 0, len(bs))
 		for _, b := range bs {
 			r.toks = append(r.toks, ob.batchTok(b))
 		}
+		if ob.keepLists {
+			ob.keptB = append(ob.keptB, keptBatches{len(ob.keptF) + len(ob.keptB), bs, append([]int(nil), r.toks...)})
+		}
 		sort.Ints(r.toks)
 	case kDeleteBatch:
-		r.err = repo.DeleteBatch(fileIDs[o.f], batchIDs[o.b]) != nil
+		if svc != nil {
+			r.err = svc.DeleteBatch(fileIDs[o.f], batchIDs[o.b]) != nil
+		} else {
+			r.err = repo.DeleteBatch(fileIDs[o.f], batchIDs[o.b]) != nil
+		}
 	}
 	return r
+}
+
+// listingChanged: a listing that a call returned earlier no longer holds the objects it held when it returned (it
+// shares memory with the repository, which later calls changed)
+func (ob *objects) listingChanged() string {
+	for _, k := range ob.keptB {
+		for i, b := range k.list {
+			if ob.batchTok(b) != k.toks[i] {
+				return fmt.Sprintf("batch listing returned as %v now reads element %d = object %d", k.toks, i, ob.batchTok(b))
+			}
+		}
+	}
+	for _, k := range ob.keptF {
+		for i, f := range k.list {
+			if ob.fileTok(f) != k.toks[i] {
+				return fmt.Sprintf("file listing returned as %v now reads element %d = object %d", k.toks, i, ob.fileTok(f))
+			}
+		}
+	}
+	return ""
 }
 
 // alphabet lists every call over nf file IDs and nb batch IDs.
